@@ -31,7 +31,7 @@ def strategy(tier):
     return cases(tier)
 
 
-def coherent(out, model, attrs, shape, order_seed, tag=''):
+def coherent(out, model, attrs, shape, order_seed, tag='', seen_mag=0.0):
     """The C08 predicate on a returned model; shared with C03/C10/C13."""
     tot = float(model.total)
     P, _ = inf.potentials_joint(model, attrs, shape)
@@ -41,8 +41,14 @@ def coherent(out, model, attrs, shape, order_seed, tag=''):
     # stored parameters (RDA's dual iterate scales with 1/L and reaches 1e6 for nearly uninformative measurements)
     mag = max([float(np.max(np.abs(v[np.isfinite(v)]))) if np.isfinite(v).any() else 0.0
                for v in (np.asarray(model.potentials[c].values, dtype=float) for c in model.cliques)] + [0.0])
-    sum_tol = 1e-6 + 1e-14 * mag
-    rt, at = 1e-6, 1e-9 * tot
+    # ... and the dual iterates handed to belief propagation *during* the run can be far larger than what is stored
+    # (RDA: t^2 g / L, 3e11 for noise 1e13), which limits how exactly the averaged marginals sum to the total
+    # The allowance is only granted for finite, representable iterates (<= 1e14: the generated noise scales reach 1e13);
+    # iterates that overflowed (F22: 1.8e308) get none.
+    if not seen_mag <= 1e14: seen_mag = 0.0
+    sum_tol = 1e-6 + 1e-14 * max(mag, seen_mag)
+    rt = 1e-6 + 1e-14 * seen_mag
+    at = 1e-9 * tot
     if hasattr(model, 'marginals'):
         for cl in model.cliques:
             f = model.marginals[cl]
@@ -104,8 +110,24 @@ def run_case(case):
             m.tuple = (m.Qd.copy(), m.y.copy(), m.tuple[2], m.tuple[3])
         out.classes.append('all_zero_queries')
     eng = inf.make_engine(mbi, case, domain)
-    model = inf.run_estimate(mbi, case, eng, meas)
-    res = coherent(out, model, attrs, shape, case['order_seed'])
+    seen = [0.0]
+    orig_bp = mbi.GraphicalModel.belief_propagation
+
+    def watched_bp(self, potentials, logZ=False):
+        for cl in potentials:
+            v = np.asarray(potentials[cl].values, dtype=float)
+            v = v[np.isfinite(v)]
+            if v.size: seen[0] = max(seen[0], float(np.max(np.abs(v))))
+        return orig_bp(self, potentials, logZ)
+    mbi.GraphicalModel.belief_propagation = watched_bp      # harness-side observation of the iterates' magnitude
+    try:
+        model = inf.run_estimate(mbi, case, eng, meas)
+    finally:
+        mbi.GraphicalModel.belief_propagation = orig_bp
+    out.extra['seen_mag'] = seen[0]
+    if seen[0] >= 1e8: out.classes.append('iterates>=1e8')
+    # (MD stores its last iterate, which `mag` already covers; RDA/IG store mle(averaged marginals))
+    res = coherent(out, model, attrs, shape, case['order_seed'], seen_mag=seen[0] if case['solver'] != 'MD' else 0.0)
     out.extra['theta_offset'] = inf.theta_offset(model)
     out.classes += ['solver:' + case['solver'], 'iters:%d' % case['iters']]
     if case['zeros']: out.classes.append('zeros')
